@@ -189,6 +189,7 @@ class Reporter:
         self.violations = []   # (signature, description, replay dict)
         self.known_hits = {}   # finding id -> (entry, count)
         self.inconclusive = []
+        self.floor_failed = False
         self.findings = [f for f in load_findings() if f.get("property") == prop]
         self.coverage = {"evaluations": 0, "distinct_nontrivial": 0, "rule": "", "samples": []}
         self.assumptions = []
@@ -212,8 +213,11 @@ class Reporter:
     def add(self, k, n=1):
         self.coverage[k] = self.coverage.get(k, 0) + n
 
-    def inconclusive_note(self, msg):
+    def inconclusive_note(self, msg, floor=False):
+        """A case that could not be judged.  floor=True: the run as a whole observed too little."""
         self.inconclusive.append(msg)
+        if floor:
+            self.floor_failed = True
 
     # -- violations
     def violation(self, signature, description, replay):
@@ -252,8 +256,8 @@ class Reporter:
             print("VIOLATION property=%s replay=%s" % (self.prop, path))
             print("  signature: %s  (%d occurrence(s))" % (sig, len(items)))
             print("  %s" % desc[:600])
-        for m in self.inconclusive:
-            print("INCONCLUSIVE property=%s %s" % (self.prop, m))
+        for m in self.inconclusive[:30]:
+            print("INCONCLUSIVE%s property=%s %s" % ("" if self.floor_failed else "-CASE", self.prop, m))
         self.coverage["known_findings_seen"] = {k: v[1] for k, v in self.known_hits.items()}
         if self.inconclusive:
             self.coverage["inconclusive"] = self.inconclusive
@@ -270,7 +274,8 @@ class Reporter:
         os.makedirs(os.path.join(VERIF, "evidence"), exist_ok=True)
         with open(os.path.join(VERIF, "evidence", "%s.json" % self.prop), "w") as f:
             json.dump(ev, f, indent=1, sort_keys=True)
-        verdict = "VIOLATED" if rc else ("INCONCLUSIVE" if self.inconclusive else "HELD")
+        verdict = "VIOLATED" if rc else ("INCONCLUSIVE" if self.floor_failed else "HELD")
+        self.coverage["inconclusive_cases"] = len(self.inconclusive)
         print("%s %s tier=%s seed=%d evaluations=%d distinct_nontrivial=%d known=%d wall=%.1fs" % (
             self.prop, verdict, self.tier, self.seed, self.coverage["evaluations"],
             self.coverage["distinct_nontrivial"], len(self.known_hits), wall))
